@@ -390,7 +390,12 @@ class BodyEval:
     def ev_rvalue(self, bb, idx, rv):
         k = rv.kind
         if k in ("use", "cast"):
-            return self.ev_operand(bb, idx, rv.ops[0])
+            v = self.ev_operand(bb, idx, rv.ops[0])
+            if k == "use" and v.op == "const" and v.info[0] == "scalar" and v.info[2] == "bool" and v.site is None:
+                # `flag = true` / `flag = false`: the assignment site is kept (not part of equality) so that a later test of the flag
+                # can be traced back to the branch that set it
+                return E("const", (), v.info, (self.body.path, bb))
+            return v
         if k in ("ref", "rawptr"):
             return self.ev_place(bb, idx, rv.place)
         if k == "bin":
